@@ -37,6 +37,32 @@ theorem C19_incremental_commutes_partial (first : Classes) (more : List Classes)
     exact foldl_complete_some _ _ _
   simp only [Session.view, this]
 
+/-- **incremental_commutes (narrow hypothesis)**: for every history outside the class `KnownRequestLost` — i.e. unless
+some class was requested only before the program units existed and never again — the view is the discovery of the
+union of all requests, wherever `ProgramUnitClass` was first requested.  In particular a history whose last request
+re-requests the early classes is covered. -/
+theorem C19_incremental_commutes_narrow (first : Classes) (more : List Classes) (ss : List Item)
+    (h : KnownRequestLost first more = false) :
+    (runHistory first more).view ss = discover (requested first more) ss := by
+  unfold KnownRequestLost at h
+  cases hu : (runHistory first more).unitCls with
+  | some u =>
+    rw [hu] at h
+    simp only [Session.view, hu]
+    exact discover_obs _ _ (by simpa using h) ss
+  | none =>
+    simp only [Session.view, hu]
+    have hf : first.pu = false := by
+      by_cases hp : first.pu = true
+      · simp only [runHistory, Session.start, hp, if_true] at hu
+        rw [foldl_complete_some] at hu
+        cases hu
+      · simpa using hp
+    have hu' : (more.foldl Session.complete ⟨first, none⟩).unitCls = none := by
+      simpa [runHistory, Session.start, hf] using hu
+    have hpu := foldl_complete_none more first first hu'
+    simp [discover, discoverT, requested, hpu, hf]
+
 /-- order and grouping of the requests are irrelevant: two histories (both starting with `ProgramUnitClass`)
 requesting the same union of classes end in the same view -/
 theorem C19_incremental_order_irrelevant (f f' : Classes) (m m' : List Classes) (ss : List Item)
@@ -107,5 +133,8 @@ theorem C19_reader_items_ok (src : List Line) : ∀ s ∈ items src, s.l1 ≤ s.
   exact go_ok _ none ⟨hasc.1, by intro q hq; cases hq⟩ (by intro q hq; cases hq) s hs
 
 example : KnownRequestBeforeUnits { Classes.empty with pu := true, ca := true } = false := by decide
+example : KnownRequestLost { Classes.empty with im := true, td := true }
+    [{ Classes.empty with pu := true }, { Classes.empty with im := true, td := true }] = false := by decide
+example : KnownRequestLost { Classes.empty with im := true } [{ Classes.empty with pu := true }] = true := by decide
 
 end LokiModel.C19
